@@ -180,3 +180,18 @@ package codegen
 //@   tags C16
 //@   at (*namer).isKeyword assert [on-sanitized] arg1 == base
 //@   at EndsWithDigit assert [digit-test-on-sanitized] arg0 == base
+
+// ---- single-channel storage textures are loaded through a scalar wrapper (C03) ------------------
+//
+// WGSL textureLoad on a one-channel storage format yields (t, 0, 0, 1); HLSL's
+// Load returns the scalar, which would broadcast. Every one-channel format must
+// select the wrapper of its channel type.
+//
+//@ func storageFormatScalarName
+//@   mode bv
+//@   tags C03
+//@   ensures [float] format == ir.StorageFormatR16Float || format == ir.StorageFormatR32Float || format == ir.StorageFormatR8Unorm || format == ir.StorageFormatR16Unorm || format == ir.StorageFormatR8Snorm || format == ir.StorageFormatR16Snorm ==> result == "float"
+//@   ensures [uint] format == ir.StorageFormatR8Uint || format == ir.StorageFormatR16Uint || format == ir.StorageFormatR32Uint ==> result == "uint"
+//@   ensures [sint] format == ir.StorageFormatR8Sint || format == ir.StorageFormatR16Sint || format == ir.StorageFormatR32Sint ==> result == "int"
+//@   pure
+//@   nopanic
